@@ -1,12 +1,13 @@
 package main
 
 import (
-	"encoding/json"
 	"bytes"
+	"encoding/json"
 	"fmt"
 	"os"
 	"sort"
 	"strings"
+	"time"
 
 	"github.com/itchio/lake/pools/fspool"
 	"github.com/itchio/wharf/pwr/rediff"
@@ -35,6 +36,39 @@ type optResult struct {
 }
 
 // optimizeReal runs the real optimizer, recovering panics.
+func init() {
+	childHandlers["C07"] = c07Child
+}
+
+// c07Child: `<patchfile> <oldDir> <newDir> <case json>` -> "ok" | "err <msg>". The optimizer starts goroutines of its
+// own (suffix sort, scan workers); a panic there cannot be recovered and kills the process, so every case is
+// first tried in an isolated child.
+func c07Child(line string) string {
+	f := strings.SplitN(line, " ", 4)
+	if len(f) != 4 {
+		return "err bad request"
+	}
+	patch, err := os.ReadFile(f[0])
+	if err != nil {
+		return "err " + err.Error()
+	}
+	c := &C07Case{}
+	if err := json.Unmarshal([]byte(f[3]), c); err != nil {
+		return "err " + err.Error()
+	}
+	oldC, newC, _, derr := decodePatch(patch)
+	if derr != nil {
+		return "err " + derr.Error()
+	}
+	o := optimizeReal(patch, f[1], f[2], c, &DiffResult{Old: oldC, New: newC})
+	if o.err != "" {
+		return "err " + o.err
+	}
+	return "ok"
+}
+
+var c07Children chan *wvlib.Child
+
 func optimizeReal(patch []byte, oldDir, newDir string, c *C07Case, res *DiffResult) (o optResult) {
 	defer func() {
 		if r := recover(); r != nil {
@@ -139,6 +173,22 @@ func c07One(env *Env, m *wvlib.Model, c *C07Case) {
 	if err != nil {
 		env.R.Violate("diff-error", err.Error(), c)
 		return
+	}
+	if c07Children != nil {
+		ch := <-c07Children
+		pf := base + "/probe.pwr"
+		os.WriteFile(pf, res.Patch, 0o644)
+		cj, _ := json.Marshal(c)
+		_, crashed, diag := ch.Ask(fmt.Sprintf("%s %s %s %s", pf, od, nd, cj), 60*time.Second)
+		c07Children <- ch
+		if crashed {
+			cls := "optimizer-crash"
+			if strings.Contains(diag, "hang") {
+				cls = "optimizer-hang"
+			}
+			env.R.Violate(cls, "the optimizer killed (or hung) the process: "+diag, c)
+			return
+		}
 	}
 	o := optimizeReal(res.Patch, od, nd, c, res)
 	if o.err != "" {
@@ -262,6 +312,13 @@ func runC07(env *Env) {
 		replayCase(env, &c)
 		m, _ := wvlib.StartModel()
 		defer m.Close()
+		c07Children = make(chan *wvlib.Child, 1)
+		if ch, err := wvlib.StartChild("C07"); err == nil {
+			c07Children <- ch
+			defer ch.Close()
+		} else {
+			c07Children = nil
+		}
 		c07One(env, m, &c)
 		printOutcome(env)
 		return
@@ -289,6 +346,18 @@ func runC07(env *Env) {
 		}
 	}
 	n = len(cases)
+	c07Children = make(chan *wvlib.Child, env.Workers)
+	for k := 0; k < env.Workers; k++ {
+		if ch, err := wvlib.StartChild("C07"); err == nil {
+			c07Children <- ch
+		}
+	}
+	defer func() {
+		close(c07Children)
+		for ch := range c07Children {
+			ch.Close()
+		}
+	}()
 	models := startModels(env)
 	wvlib.ParallelDo(n, env.Workers, func(i int) {
 		m := <-models
